@@ -252,6 +252,21 @@ def inorder_nodes(n, acc=None):
     return acc
 
 
+def preorder_objs(root):
+    """(object, path) of every node below root in pre-order."""
+    out = []
+
+    def go(n, pth):
+        out.append((n, pth))
+        if n.left is not None:
+            go(n.left, pth + "L")
+        if n.right is not None:
+            go(n.right, pth + "R")
+
+    go(root, "")
+    return out
+
+
 def snapshot(root):
     """identity + pointer + payload snapshot of a heap (for purity / immutability checks)."""
     out = []
